@@ -70,7 +70,8 @@ def cases(tier, seed):
                 yield ('fa-res', idx, seed, tier)
     for name in signals.fb_names(b['fb_sizes']):
         yield ('fb', name, seed, tier)
-        yield ('fb-res', name, seed, tier)
+        if name[1] <= 100:
+            yield ('fb-res', name, seed, tier)
 
 
 def decode_case(c):
@@ -293,7 +294,8 @@ def check_case(case):
                     one(seq, 'sd', par, step, mi, method, pad)
                 for par in RILLING:
                     one(seq, 'rilling', par, step, mi, method, pad)
-            if (method, pad) == ENVS[0] and step in (1.0, 0.05) and (b['long'] or (case[0].startswith('fa') and step == 1.0)):
+            small = case[0].startswith('fa') or (case[0].startswith('fb') and case[1][1] <= 32)
+            if (method, pad) == ENVS[0] and step in (1.0, 0.05) and small and (b['long'] or step == 1.0):
                 for par in (SD if b['long'] else SD[:1]):
                     one(seq, 'sd', par, step, LONG, method, pad)
                 for par in (RILLING if b['long'] else RILLING[:1]):
